@@ -12,7 +12,7 @@ VARIABLES i, t, gen
 X == Var("x", TRUE)  Y == Var("y", TRUE)  Z == Var("z", FALSE)
 FullLeaves == <<Val(-2), Val(0), Val(1), Val(3), Val(MAXI), Val(MINI + 1), X, Y, Z>>
 SmallLeaves == <<Val(-2), Val(1), X, Z>>
-MidLeaves == <<Val(-2), Val(0), Val(1), Val(3), X, Z>>
+MidLeaves == <<Val(-2), Val(0), Val(1), X, Z>>
 LeafSeq == CASE LeafSet = "full" -> FullLeaves [] LeafSet = "small" -> SmallLeaves [] LeafSet = "mid" -> MidLeaves
 Leaves == {LeafSeq[j] : j \in DOMAIN LeafSeq}
 
